@@ -335,7 +335,7 @@ class Contract:
     def __init__(self, qual, requires=(), ensures=(), modifies=(), result=None, loops=None, asserts=None,
                  types=None, tags=(), params=None, self_cls=None, setup=None, inline_calls=(), pure=False,
                  exc_ensures=None, havoc_locals=None, notes='', ghost_return=(), ghost_before=None, ledger_inv=(),
-                 msg_asserts=None, assumed=False, dead=(), ghost_after_assign=None, ghost_return_at=None, dead_under=()):
+                 msg_asserts=None, assumed=False, dead=(), ghost_after_assign=None, ghost_return_at=None, dead_under=(), final_params=()):
         self.qual = qual
         self.tags = list(tags)
         self.requires = clauses(requires, tags)
@@ -356,6 +356,7 @@ class Contract:
         self.ghost_after_assign = dict(ghost_after_assign or {})   # local name -> [(path, expr)] ghost assignments after any assignment to it
         self.ghost_return_at = dict(ghost_return_at or {})         # 'return#k' -> [(path, expr)]
         self.dead = set(dead)                           # labels of paths expected to be infeasible under the precondition
+        self.final_params = tuple(final_params)         # parameters whose FINAL value the postconditions mean (defaulted-then-rebound parameters such as maxfun)
         self.dead_under = tuple(dead_under)             # ... or: returns lexically inside an `if` whose test mentions one of these snippets (robust to inserted returns)
         self.assumed = assumed                          # contract is assumed (not verified against the body)
 
@@ -656,6 +657,15 @@ class Engine:
     def check_post(self, con, st, old, result, retlabel, line):
         st = st.copy()
         st.env['result'] = result
+        # a parameter name in a postcondition denotes the value the caller passed: Python parameters are ordinary locals, and a body that re-binds one (tol = tol * ...)
+        # must not thereby change what its postcondition says.  (Objects are references: their fields are read from the final heap as before.)
+        fr = self.frames[0]
+        if old is not None and fr.fi is not None:
+            if not hasattr(fr, 'rebound'):
+                fr.rebound = assigned_names(fr.fi.node.body)
+            for a in fr.fi.node.args.args + fr.fi.node.args.kwonlyargs:
+                if a.arg in fr.rebound and a.arg in old.env and a.arg not in getattr(con, 'final_params', ()):
+                    st.env[a.arg] = old.env[a.arg]
         for c in con.ensures:
             if c.label.startswith('A-'):
                 continue        # a stated assumption carried by the contract (assumed at call sites, listed in the evidence, never discharged)
